@@ -30,7 +30,8 @@ done
 /venv/bin/python - "$P" "$X" "$base" "$demo_clean" "$demo_patched" "$res" <<'PY'
 import json,sys,os
 P,X,base,dc,dp,res=sys.argv[1:7]
-notes=open(f'/tmp/seedout-{P}/notes.md').read() if os.path.exists(f'/tmp/seedout-{P}/notes.md') else ''
+nf=f'/tmp/seedout-{P}/notes_CD.md' if X in ('C','D') else f'/tmp/seedout-{P}/notes.md'
+notes=open(nf).read() if os.path.exists(nf) else ''
 meta={"property":P,"variant":X,"source":"fresh sub-agent given only the property text and a scratch worktree",
  "baseline_with_patch":base,"demo_exit_on_HEAD":int(dc),"demo_exit_with_patch":int(dp),
  "confirmed": (dc=="0" and dp!="0" and "missing=0" in base),
